@@ -163,7 +163,8 @@ def fd_derivative(fx, x, n=1, m=2):
     _assert(n < num_x, 'len(x) must be larger than n')
     _assert(num_x == len(fx), 'len(x) must be equal len(fx)')
 
-    du = np.zeros_like(fx)
+    # at least float: integer-typed samples must not truncate the derivative
+    du = np.zeros_like(fx, dtype=np.result_type(np.asarray(fx).dtype, float))
 
     mm = n // 2 + m
     size = 2 * mm + 2  # stencil size at boundary
